@@ -2,7 +2,9 @@
 (* Bounded configuration sets for WarmUp.  One module, several cfg files: the scope operator selects the class. *)
 EXTENDS WarmUp, Json
 
-Cfg(tn, td, p, c) == [tn |-> tn, td |-> td, p |-> p, c |-> c, cb |-> 0]
+Cfg(tn, td, p, c) == [tn |-> tn, td |-> td, p |-> p, c |-> c, cb |-> 0, si |-> 1000]
+\* the same (reject) rules with another statistic interval
+Win(S, I) == { [x EXCEPT !.si = i] : x \in S, i \in I }
 \* the same rule enforced by the throttling checker
 Thr(S) == { [x EXCEPT !.cb = 1] : x \in S }
 \* T in {1/4, 1/2, 1, 2, 5, 10} x period {1, 2, 5} x cold {0 (default 3), 2, 3, 10}
@@ -14,8 +16,8 @@ MCConfigsBig == { Cfg(t[1], t[2], p, c) : t \in {<<0, 1>>, <<1, 4>>, <<1, 2>>, <
                                           p \in {1, 2, 3, 5, 10}, c \in {0, 2, 3, 4, 5, 10} }
 
 \* both control behaviours (the envelope invariants are stated for either)
-MCConfigs2    == MCConfigs \cup Thr(MCConfigs)
-MCConfigsBig2 == MCConfigsBig \cup Thr(MCConfigsBig)
+MCConfigs2    == MCConfigs \cup Thr(MCConfigs) \cup Win(MCConfigs, {250, 500, 2000})
+MCConfigsBig2 == MCConfigsBig \cup Thr(MCConfigsBig) \cup Win(MCConfigsBig, {100, 250, 500, 2000, 5000})
 \* throttling rules only (mutant run)
 MCConfigsThr  == Thr(MCConfigs)
 
@@ -37,6 +39,7 @@ ScopeAll(c)          == TRUE
 \* configurations for the lead run: the small set plus members of the class warningToken = 0 < maxToken
 \* (the small set already holds members of Degenerate and of ColdBelowOne)
 MCConfigsLead == MCConfigs \cup { Cfg(6, 1, 1, 10), Cfg(8, 1, 1, 10), Cfg(5, 1, 1, 5) }
+                 \cup Win({ Cfg(10, 1, 1, 3), Cfg(10, 1, 2, 2), Cfg(5, 1, 2, 3), Cfg(2, 1, 2, 2) }, {2000, 5000})
 
 \* LEAD run (InScope <- ScopeAll, ExcuseStuck = FALSE): never fails; every reachable state in which the transcription
 \* leaves the envelope prints the demand history that leads to it and the clauses it breaks.  The check forces these
